@@ -150,7 +150,7 @@ func oraclePcm(src []byte, height int64, round int32, types []ntype, proofs [][]
 
 func genPcm(x *hxlib.Ctx, kr *keyring) {
 	r := x.Rand
-	count := x.N(40)
+	count := x.N(60)
 	for it := 0; it < count; it++ {
 		src := []byte(fmt.Sprintf("0x%x.icon", 1+r.Intn(9)))
 		height := 1 + r.Int63n(1<<30)
@@ -182,11 +182,16 @@ func genPcm(x *hxlib.Ctx, kr *keyring) {
 				continue
 			}
 			d := decision{src, t.id, height, round, t.hash}
-			proofs = append(proofs, mk(t, d, t.c.n()))
+			// any sufficient number of signers
+			lo := 2*t.c.n()/3 + 1
+			proofs = append(proofs, mk(t, d, lo+r.Intn(t.c.n()-lo+1)))
 		}
 		kinds := []string{"ok", "missing-proof", "extra-proof", "swapped", "one-insufficient", "one-other-height", "one-other-round",
 			"one-other-src", "one-other-ntid", "one-other-section-hash", "one-undecodable", "verify-other-height", "verify-other-round", "verify-other-src"}
-		kind := kinds[it%len(kinds)]
+		kind := kinds[(it/2)%len(kinds)]
+		if it%2 == 0 {
+			kind = "ok"
+		}
 		vh, vr, vs := height, round, src
 		withCtx := func() []int {
 			var l []int
@@ -241,6 +246,10 @@ func genPcm(x *hxlib.Ctx, kr *keyring) {
 			}
 			j := r.Intn(len(proofs))
 			proofs[j] = pcmProof{bytes: []byte{0xc1, 0x80, 0x01}, bad: true}
+			if _, err := types[withCtx[j]].c.pc.NewProofFromBytes(proofs[j].bytes); err == nil {
+				x.Note("the malformed proof bytes decode; scenario skipped")
+				continue
+			}
 		case "verify-other-height":
 			vh = height + 1
 		case "verify-other-round":
